@@ -475,6 +475,8 @@ class eval_abs(object):
 
     def eval_op_lshift(self, args, op_size, cast_int):
         r = args[1]#&0x1F
+        if int(r) >= op_size:
+            return 0
         ret_value = ((args[0] &mymaxuint[op_size])<<r)
         return ret_value
 
